@@ -517,8 +517,9 @@ EXPLANATION = (
     'analysed function), with len() admitted only in the handler of a '
     'failed single-subscript probe; ownership query for the wrapped '
     'iterator.')
-ASSUMPTIONS = ['does not decide the numeric look-ahead bound (window + '
-               'size + orphan)',
+ASSUMPTIONS = ['the numeric look-ahead bound is decided for opt() only '
+               '(R3); what a user sequence pulls inside its own '
+               '__getitem__ is not modelled',
                'the features the property excepts (sort, reverse, length, '
                'statistics, next-batches, unbatched rendering) may force']
 TRUSTED = ['python ast']
